@@ -116,7 +116,7 @@ pub trait GraphNameIndex: TermIndex {
 //
 
 /// A generic implementation of [`TermIndex`].
-#[derive(Clone, Debug, Default)]
+#[derive(Debug, Default)]
 pub struct SimpleTermIndex<I: Index> {
     t2i: HashMap<SimpleTerm<'static>, I>,
     i2t: Vec<SimpleTerm<'static>>,
@@ -139,6 +139,26 @@ impl<I: Index> SimpleTermIndex<I> {
     /// Whether this index is empty
     pub fn is_empty(&self) -> bool {
         self.len() == 0
+    }
+}
+
+impl<I: Index> Clone for SimpleTermIndex<I> {
+    fn clone(&self) -> Self {
+        // NB: this can not be derived:
+        // the terms in i2t borrow their data from the keys of t2i,
+        // so the clone's i2t must borrow from the clone's own keys, not from self's.
+        let t2i = self.t2i.clone();
+        let mut keys: Vec<(&SimpleTerm<'static>, I)> = t2i.iter().map(|(k, v)| (k, *v)).collect();
+        keys.sort_unstable_by_key(|(_, i)| *i);
+        let i2t = keys
+            .into_iter()
+            .map(|(k, _)| {
+                let t2 = k.as_simple();
+                // the following is safe, for the same reason as in ensure_index below
+                unsafe { std::mem::transmute::<SimpleTerm<'_>, SimpleTerm<'static>>(t2) }
+            })
+            .collect();
+        Self { t2i, i2t }
     }
 }
 
